@@ -7,18 +7,34 @@
 (* before the connection blocks.  The other connections of the engine are  *)
 (* the environment that takes and returns job tokens.                      *)
 (*                                                                         *)
-(* A frame is [id, cls, kind, big]: cls the job class its length asks for, *)
-(* kind what serving it does (answer | silent | reject | panic | short),   *)
-(* big whether its reply is larger than the drain buffer.                  *)
+(* A frame is [id, cls, kind, sz, opt, ck]: cls the job class its length   *)
+(* asks for, kind what serving it does (answer | silent | reject | panic | *)
+(* short), sz the size class of its reply (TcpFrames.tla: small is staged  *)
+(* in the drain buffer, large fits only an empty buffer, huge is larger    *)
+(* than the whole buffer and is written on its own), opt what EDNS the     *)
+(* query carried (none | plain | cookie).  ck is filled in by Serve: whose *)
+(* client cookie the reply's COOKIE option was built from (0 = none).      *)
+(*                                                                         *)
+(* The job owns an edns.ResponseWriter slot the wire path reuses           *)
+(* (tcpJob.ednsWriter, middleware/edns serveWire): slot[c] is the client   *)
+(* cookie left in the slab the next acquire of class c hands out (0 = the  *)
+(* slot is zeroed).  With one token per class that slab is THE slab.       *)
 (***************************************************************************)
 EXTENDS Naturals, Sequences, FiniteSets, TLC, TcpFrames
 
 CONSTANTS
   NF,        \* frames the client pipelines in one behaviour
-  D,         \* drain buffer capacity, in replies
+  D,         \* drain buffer capacity, in size units (TcpFrames!Sz)
   CapSmall, CapLarge,
   Kinds,
-  FlushOnWait   \* acquire() flushes staged replies before it parks for a token (FALSE = mutant)
+  Sizes,        \* reply size classes explored (subset of SizeClasses)
+  Opts,         \* EDNS shapes explored for queries that run the chain (subset of OptKinds)
+  FlushOnWait,  \* acquire() flushes staged replies before it parks for a token (FALSE = mutant)
+  FlushBeforeDirect, \* stage() flushes what is staged before it writes a huge reply on its own (FALSE = mutant)
+  ResetSlot     \* serveWire's deferred `*rw = ResponseWriter{}` zeroes the whole slot
+                \* (FALSE = mutant: cookieRaw / hasCookieRaw survive the request)
+
+ASSUME Sizes \subseteq SizeClasses /\ Opts \subseteq OptKinds
 
 Classes == {"small", "large"}
 Cap(c) == IF c = "small" THEN CapSmall ELSE CapLarge
@@ -30,28 +46,32 @@ VARIABLES
   hp,        \* half a length prefix is buffered behind them
   pc, job, tok, envHeld,
   drain, wireOut, werr,
+  slot,      \* per class: the client cookie sitting in the job's edns writer slot (0 = zeroed)
   hist,      \* ghost: frames served so far
   cgone      \* the client has closed its end
 
-vars == <<nsent, net, fill, hp, pc, job, tok, envHeld, drain, wireOut, werr, hist, cgone>>
+vars == <<nsent, net, fill, hp, pc, job, tok, envHeld, drain, wireOut, werr, slot, hist, cgone>>
+
+EnvCk == NF + 1      \* the cookie of some other connection's client
 
 Init ==
   /\ nsent = 0 /\ net = <<>> /\ fill = <<>> /\ hp = FALSE
   /\ pc = "top" /\ job = "none"
   /\ tok = [c \in Classes |-> Cap(c)] /\ envHeld = [c \in Classes |-> 0]
   /\ drain = <<>> /\ wireOut = <<>> /\ werr = FALSE /\ hist = <<>> /\ cgone = FALSE
+  /\ slot = [c \in Classes |-> 0]
 
 ---------------------------------------------------------------------------
 (* client and network *)
-ClientWrite(cls, kind, big) ==
+ClientWrite(cls, kind, sz, opt) ==
   /\ nsent < NF /\ ~cgone
   /\ nsent' = nsent + 1
-  /\ net' = Append(net, [id |-> nsent + 1, cls |-> cls, kind |-> kind, big |-> big])
-  /\ UNCHANGED <<fill, hp, pc, job, tok, envHeld, drain, wireOut, werr, hist, cgone>>
+  /\ net' = Append(net, [id |-> nsent + 1, cls |-> cls, kind |-> kind, sz |-> sz, opt |-> opt, ck |-> 0])
+  /\ UNCHANGED <<fill, hp, pc, job, tok, envHeld, drain, wireOut, werr, slot, hist, cgone>>
 
 ClientClose ==
   /\ ~cgone /\ cgone' = TRUE
-  /\ UNCHANGED <<nsent, net, fill, hp, pc, job, tok, envHeld, drain, wireOut, werr, hist>>
+  /\ UNCHANGED <<nsent, net, fill, hp, pc, job, tok, envHeld, drain, wireOut, werr, slot, hist>>
 
 LastWhole == IF fill = <<>> THEN TRUE ELSE fill[Len(fill)].whole
 
@@ -62,36 +82,50 @@ Deliver(whole) ==
   /\ LastWhole
   /\ fill' = Append(fill, [f |-> Head(net), whole |-> whole])
   /\ net' = Tail(net) /\ hp' = FALSE
-  /\ UNCHANGED <<nsent, pc, job, tok, envHeld, drain, wireOut, werr, hist, cgone>>
+  /\ UNCHANGED <<nsent, pc, job, tok, envHeld, drain, wireOut, werr, slot, hist, cgone>>
 
 DeliverHalfPrefix ==
   /\ net # <<>> /\ ~hp /\ pc # "closed" /\ LastWhole
   /\ hp' = TRUE
-  /\ UNCHANGED <<nsent, net, fill, pc, job, tok, envHeld, drain, wireOut, werr, hist, cgone>>
+  /\ UNCHANGED <<nsent, net, fill, pc, job, tok, envHeld, drain, wireOut, werr, slot, hist, cgone>>
 
 DeliverRest ==
   /\ ~LastWhole /\ pc # "closed"
   /\ fill' = [fill EXCEPT ![Len(fill)].whole = TRUE]
-  /\ UNCHANGED <<nsent, net, hp, pc, job, tok, envHeld, drain, wireOut, werr, hist, cgone>>
+  /\ UNCHANGED <<nsent, net, hp, pc, job, tok, envHeld, drain, wireOut, werr, slot, hist, cgone>>
 
-(* the other connections of the engine *)
+(* the other connections of the engine; a tenant served from the slab may   *)
+(* have carried a cookie, which stays behind only when the slot is not     *)
+(* zeroed after the request                                                *)
 EnvTake(c) ==
   /\ tok[c] > 0
   /\ tok' = [tok EXCEPT ![c] = @ - 1] /\ envHeld' = [envHeld EXCEPT ![c] = @ + 1]
-  /\ UNCHANGED <<nsent, net, fill, hp, pc, job, drain, wireOut, werr, hist, cgone>>
+  /\ UNCHANGED <<nsent, net, fill, hp, pc, job, drain, wireOut, werr, slot, hist, cgone>>
 EnvGive(c) ==
   /\ envHeld[c] > 0
   /\ tok' = [tok EXCEPT ![c] = @ + 1] /\ envHeld' = [envHeld EXCEPT ![c] = @ - 1]
+  /\ \E k \in (IF ResetSlot THEN {0} ELSE {slot[c], EnvCk}) : slot' = [slot EXCEPT ![c] = k]
   /\ UNCHANGED <<nsent, net, fill, hp, pc, job, drain, wireOut, werr, hist, cgone>>
 
 ---------------------------------------------------------------------------
 (* the connection goroutine *)
 Ids(s) == [i \in 1..Len(s) |-> s[i].id]
 
-FlushTo(dr, wo) ==     \* tcpStream.flush: everything staged leaves in one write, or the write fails
-  \/ /\ ~werr /\ wo = wireOut \o dr /\ werr' = werr
-  \/ /\ dr # <<>> /\ cgone /\ wo = wireOut /\ werr' = TRUE     \* peer gone: the write errors, sticky
-  \/ /\ werr /\ wo = wireOut /\ werr' = werr
+(* tcpStream.flush of `dr` on top of `wo`: everything staged leaves in one  *)
+(* write, or the write fails (peer gone) and the error is sticky.          *)
+(* The set of possible <<wireOut', werr'>>.                                *)
+FlushOutcomes(dr, wo, we) ==
+  IF we THEN {<<wo, TRUE>>}
+  ELSE IF dr = <<>> THEN {<<wo, FALSE>>}
+  ELSE {<<wo \o dr, FALSE>>} \cup (IF cgone THEN {<<wo, TRUE>>} ELSE {})
+
+(* dnsclient.WriteFrameFrom of one reply straight to the connection *)
+DirectOutcomes(r, wo) ==
+  {<<Append(wo, r), FALSE>>} \cup (IF cgone THEN {<<wo, TRUE>>} ELSE {})
+
+Flush ==      \* flush() at a point that stages nothing afterwards
+  \E o \in FlushOutcomes(drain, wireOut, werr) :
+    /\ wireOut' = o[1] /\ werr' = o[2] /\ drain' = <<>>
 
 Released == IF job = "none" THEN tok ELSE [tok EXCEPT ![job] = @ + 1]
 
@@ -103,21 +137,20 @@ Top ==                 \* loop head: a whole prefix in hand keeps the burst goin
        ELSE \* about to block: release the slab, flush the replies, then wait
             /\ tok' = Released
             /\ job' = "none"
-            /\ \E wo \in {wireOut, wireOut \o drain} : FlushTo(drain, wo) /\ wireOut' = wo
-            /\ drain' = <<>>
+            /\ Flush
             /\ pc' = IF werr' THEN "exit" ELSE "blocked"
-  /\ UNCHANGED <<nsent, net, fill, hp, envHeld, hist, cgone>>
+  /\ UNCHANGED <<nsent, net, fill, hp, envHeld, slot, hist, cgone>>
 
 Blocked ==
   /\ pc = "blocked"
   /\ \/ fill # <<>> /\ pc' = "prefix"
      \/ fill = <<>> /\ (cgone \/ net = <<>>) /\ pc' = "exit"     \* EOF or idle timeout
-  /\ UNCHANGED <<nsent, net, fill, hp, job, tok, envHeld, drain, wireOut, werr, hist, cgone>>
+  /\ UNCHANGED <<nsent, net, fill, hp, job, tok, envHeld, drain, wireOut, werr, slot, hist, cgone>>
 
 Prefix ==
   /\ pc = "prefix"
   /\ pc' = IF Head(fill).f.kind = "short" THEN "exit" ELSE "class"
-  /\ UNCHANGED <<nsent, net, fill, hp, job, tok, envHeld, drain, wireOut, werr, hist, cgone>>
+  /\ UNCHANGED <<nsent, net, fill, hp, job, tok, envHeld, drain, wireOut, werr, slot, hist, cgone>>
 
 ClassSwap ==           \* the class belongs to the frame, both ways
   /\ pc = "class"
@@ -125,7 +158,7 @@ ClassSwap ==           \* the class belongs to the frame, both ways
        THEN tok' = [tok EXCEPT ![job] = @ + 1] /\ job' = "none"
        ELSE UNCHANGED <<tok, job>>
   /\ pc' = "acquire"
-  /\ UNCHANGED <<nsent, net, fill, hp, envHeld, drain, wireOut, werr, hist, cgone>>
+  /\ UNCHANGED <<nsent, net, fill, hp, envHeld, drain, wireOut, werr, slot, hist, cgone>>
 
 Acquire ==
   /\ pc = "acquire"
@@ -135,74 +168,119 @@ Acquire ==
        THEN /\ tok' = [tok EXCEPT ![c] = @ - 1] /\ job' = c /\ pc' = "body"
             /\ UNCHANGED <<drain, wireOut, werr>>
        ELSE \* parks for a token: staged replies leave first
-            /\ IF FlushOnWait
-                 THEN /\ \E wo \in {wireOut, wireOut \o drain} : FlushTo(drain, wo) /\ wireOut' = wo
-                      /\ drain' = <<>>
-                 ELSE UNCHANGED <<drain, wireOut, werr>>
+            /\ IF FlushOnWait THEN Flush ELSE UNCHANGED <<drain, wireOut, werr>>
             /\ pc' = "wait" /\ UNCHANGED <<job, tok>>
-  /\ UNCHANGED <<nsent, net, fill, hp, envHeld, hist, cgone>>
+  /\ UNCHANGED <<nsent, net, fill, hp, envHeld, slot, hist, cgone>>
 
 Wait ==
   /\ pc = "wait"
   /\ LET c == Head(fill).f.cls IN
      \/ tok[c] > 0 /\ tok' = [tok EXCEPT ![c] = @ - 1] /\ job' = c /\ pc' = "body"
      \/ tok[c] = 0 /\ pc' = "exit" /\ UNCHANGED <<tok, job>>      \* the query's budget ran out
-  /\ UNCHANGED <<nsent, net, fill, hp, envHeld, drain, wireOut, werr, hist, cgone>>
+  /\ UNCHANGED <<nsent, net, fill, hp, envHeld, drain, wireOut, werr, slot, hist, cgone>>
 
 Body ==                \* blocks for the rest of the body with the replies still staged (by design)
   /\ pc = "body"
   /\ \/ Head(fill).whole /\ pc' = "serve"
      \/ ~Head(fill).whole /\ (cgone \/ net = <<>>) /\ pc' = "exit"
-  /\ UNCHANGED <<nsent, net, fill, hp, job, tok, envHeld, drain, wireOut, werr, hist, cgone>>
+  /\ UNCHANGED <<nsent, net, fill, hp, job, tok, envHeld, drain, wireOut, werr, slot, hist, cgone>>
+
+(* tcpStream.stage of one framed reply r, literally:                        *)
+(*   need > len(drain)        -> flush what is staged, then write r alone   *)
+(*   held + need > len(drain) -> flush, then stage r in the empty buffer    *)
+(*   otherwise                -> stage r behind what is held                *)
+(* a failed flush returns the error with nothing staged (held = 0)          *)
+Stage(r) ==
+  IF werr THEN UNCHANGED <<drain, wireOut, werr>>
+  ELSE IF Sz(r.sz, D) > D
+    THEN IF FlushBeforeDirect
+           THEN \E o \in FlushOutcomes(drain, wireOut, werr) :
+                  /\ drain' = <<>>
+                  /\ IF o[2] THEN wireOut' = o[1] /\ werr' = TRUE
+                     ELSE \E d \in DirectOutcomes(r, o[1]) : wireOut' = d[1] /\ werr' = d[2]
+           ELSE \* mutant: the huge reply overtakes whatever is staged
+                /\ \E d \in DirectOutcomes(r, wireOut) : wireOut' = d[1] /\ werr' = d[2]
+                /\ UNCHANGED drain
+    ELSE IF Held(drain, D) + Sz(r.sz, D) > D
+      THEN \E o \in FlushOutcomes(drain, wireOut, werr) :
+             /\ wireOut' = o[1] /\ werr' = o[2]
+             /\ drain' = IF o[2] THEN <<>> ELSE <<r>>
+      ELSE drain' = Append(drain, r) /\ UNCHANGED <<wireOut, werr>>
+
+(* middleware/edns serveWire on the job-owned slot: every field but the     *)
+(* cookie pair is assigned from the request; cookieRaw/hasCookieRaw only    *)
+(* when the request carries a cookie; the deferred reset zeroes the slot.   *)
+(* The reply's OPT is built from the slot while the chain runs.             *)
+ThroughChain(f) == f.kind \in {"answer", "silent"}
+SlotEntered(f) == IF f.opt = "cookie" THEN f.id ELSE slot[job]
+SlotLeft(f)    == IF ResetSlot THEN 0 ELSE SlotEntered(f)
+ReplyCk(f)     == IF f.kind # "answer" \/ f.opt = "none" THEN 0 ELSE SlotEntered(f)
 
 Serve ==
   /\ pc = "serve"
   /\ LET f == Head(fill).f IN
      /\ hist' = Append(hist, f)
      /\ fill' = Tail(fill)
+     /\ slot' = IF ThroughChain(f) THEN [slot EXCEPT ![job] = SlotLeft(f)] ELSE slot
      /\ CASE f.kind = "panic" -> pc' = "exit" /\ UNCHANGED <<drain, wireOut, werr>>
           [] f.kind = "silent" -> pc' = "top" /\ UNCHANGED <<drain, wireOut, werr>>
-          [] OTHER ->            \* tcpStream.stage
-               /\ pc' = "top"
-               /\ IF werr THEN UNCHANGED <<drain, wireOut, werr>>
-                  ELSE IF f.big
-                    THEN \* too large for the drain buffer: flush, then written on its own
-                         \E wo \in {wireOut, wireOut \o drain} :
-                           /\ FlushTo(drain, wo)
-                           /\ wireOut' = IF werr' THEN wo ELSE Append(wo, f)
-                           /\ drain' = <<>>
-                    ELSE IF Len(drain) + 1 > D
-                      THEN \E wo \in {wireOut, wireOut \o drain} :
-                             /\ FlushTo(drain, wo) /\ wireOut' = wo
-                             /\ drain' = IF werr' THEN <<>> ELSE <<f>>
-                      ELSE drain' = Append(drain, f) /\ UNCHANGED <<wireOut, werr>>
+          [] OTHER -> pc' = "top" /\ Stage([f EXCEPT !.ck = ReplyCk(f)])
   /\ UNCHANGED <<nsent, net, hp, job, tok, envHeld, cgone>>
 
 Exit ==                \* the deferred tail: slab back first, then the last flush, then close
   /\ pc = "exit"
   /\ tok' = Released
   /\ job' = "none"
-  /\ \E wo \in {wireOut, wireOut \o drain} : FlushTo(drain, wo) /\ wireOut' = wo
-  /\ drain' = <<>>
+  /\ Flush
   /\ pc' = "closed"
-  /\ UNCHANGED <<nsent, net, fill, hp, envHeld, hist, cgone>>
+  /\ UNCHANGED <<nsent, net, fill, hp, envHeld, slot, hist, cgone>>
+
+FrameChoice(k, z, o) ==
+  /\ k \in Kinds
+  /\ (IF k = "answer" THEN z \in Sizes ELSE z = "small")
+  /\ (IF k \in {"answer", "silent"} THEN o \in Opts ELSE o = "none")
+
+Conn == Top \/ Blocked \/ Prefix \/ ClassSwap \/ Acquire \/ Wait \/ Body \/ Serve \/ Exit
 
 Next ==
-  \/ \E c \in Classes, k \in Kinds, b \in BOOLEAN : (b => k = "answer") /\ ClientWrite(c, k, b)
+  \/ \E c \in Classes, k \in Kinds, z \in SizeClasses, o \in OptKinds :
+       FrameChoice(k, z, o) /\ ClientWrite(c, k, z, o)
   \/ ClientClose \/ Deliver(TRUE) \/ Deliver(FALSE) \/ DeliverHalfPrefix \/ DeliverRest
   \/ \E c \in Classes : EnvTake(c) \/ EnvGive(c)
-  \/ Top \/ Blocked \/ Prefix \/ ClassSwap \/ Acquire \/ Wait \/ Body \/ Serve \/ Exit
+  \/ Conn
 
 Spec == Init /\ [][Next]_vars
+
+(* the script generator: one well-behaved client pipelining small-class     *)
+(* answerable queries, every frame delivered whole, no other tenant.  Its   *)
+(* labelled graph is walked for the size-class / EDNS orders and chunkings  *)
+(* that are replayed on the real engines.                                   *)
+ScriptNext ==
+  \/ \E z \in Sizes, o \in Opts : ClientWrite("small", "answer", z, o)
+  \/ Deliver(TRUE)
+  \/ Conn
+ScriptSpec == Init /\ [][ScriptNext]_vars
 
 ---------------------------------------------------------------------------
 Expected == Ids(SelectSeq(hist, LAMBDA f : Answerable(f.kind)))
 
 (* replies arrive whole, one per answerable query, in query order: what has *)
-(* left plus what is staged is exactly the replies of the queries served   *)
+(* left plus what is staged is exactly the replies of the queries served,  *)
+(* whatever their size classes                                              *)
 WholeInOrderOnePerQuery ==
   /\ IsPrefix(Ids(wireOut), Expected)
   /\ ~werr => Ids(wireOut \o drain) = Expected
+
+(* a reply's OPT options derive only from the request it answers: a COOKIE  *)
+(* appears iff that query carried one and is built from that query's own    *)
+(* client cookie                                                            *)
+ReplyOptIsOwn ==
+  \A i \in 1..Len(wireOut \o drain) :
+    LET r == (wireOut \o drain)[i] IN r.ck = (IF r.opt = "cookie" THEN r.id ELSE 0)
+
+(* between requests the slot holds nothing of any request (the hazard        *)
+(* ReplyOptIsOwn's failure grows from)                                      *)
+SlotIsZeroBetweenRequests == \A c \in Classes : slot[c] = 0
 
 (* nothing a client has earned waits on the server while the server waits  *)
 (* on the client or on another tenant's slab                               *)
@@ -218,5 +296,6 @@ ClosedIsClean == pc = "closed" => job = "none" /\ drain = <<>>
 
 TypeOK ==
   /\ pc \in {"top", "blocked", "prefix", "class", "acquire", "wait", "body", "serve", "exit", "closed"}
-  /\ job \in Classes \cup {"none"} /\ Len(drain) <= D
+  /\ job \in Classes \cup {"none"} /\ Held(drain, D) <= D
+  /\ \A c \in Classes : slot[c] \in 0..EnvCk
 =============================================================================
